@@ -116,6 +116,10 @@ def run(chk):
                     for a, b in zip(vf['faces'], d['faces'])) and all(
                     abs(a.volume - b.volume) <= tol.vol for a, b in zip(vf['cells'], d['cells']))
                 chk.violation('impl-vs-impl', 'route through with_faces() differs from the direct build beyond rounding %s' % where, rp, key='viaf' + (' gen-on-wall' if only_wall else ''))
+        # 5b. build_voronoi_cells called twice into the same caller-kept buffers: same cells, same faces appended again, the
+        #     faces stored by the first call untouched (bitwise)
+        if impl.get('bvc', '-') != '-':
+            chk.violation('impl-vs-impl', 'VoronoiIntegrator::build_voronoi_cells called twice into the same buffers: %s %s' % (impl['bvc'][:300], where), rp, key='bvc')
         # 6. model headers
         m = model.get(r.id)
         if m and m[0] == 'D0':
